@@ -2,6 +2,7 @@ import HC.Driver
 import HC.Model.Core
 import HC.Model.Proof
 import HC.Spec.RefTree
+import HC.Crypto.Sha256
 /-! Stateful part of the line-protocol driver: cores on model disks. -/
 namespace HC.Driver
 open HC HC.Codec HC.Oplog
@@ -296,6 +297,31 @@ def coreLine (w : World) (ws : List String) : Option (World × String) :=
           let flag := if bad.isEmpty && rootsOk then "" else " MISMATCH"
           some (w, s!"ok len={len} filenodes={recs.length} roots={rts.length} sig={sig} proofnodes={pn} ref={hex16 digest}{flag}"))
      | _, _ => some (w, "bad-op"))
+  | ["sha", name] =>
+    -- SHA-256 of the four stores (upper-case hex; NONE for an empty store), as tests/js_interop.rs hashes them
+    (match w.get? name with
+     | some h =>
+       let f := fun (x : File) => if x.size = 0 then "NONE" else (hex (Sha256.hash x.toList)).toUpper
+       some (w, s!"bitfield={f h.disk.bitfield} data={f h.disk.data} oplog={f h.disk.oplog} tree={f h.disk.tree}")
+     | none => some (w, "nocore"))
+  | ["openfiles", name, t, d, b, o] =>
+    -- open a core on the given raw store contents (`open(true)`)
+    (match unhex t, unhex d, unhex b, unhex o with
+     | some t, some d, some b, some o =>
+       let disk : Disk := ⟨File.ofList t, File.ofList d, File.ofList b, File.ofList o⟩
+       (match openOn disk none with
+        | .error e => some (w.set name { disk := disk, writer := name }, s!"{failTxt e} j=[]")
+        | .ok (c, j) => some (w.set name { core := some c, disk := disk.applyAll j, writer := name, prevExists := true }, s!"ok j={jTxt j}"))
+     | _, _, _, _ => some (w, "bad-op"))
+  | ["readfiles", t, d, b, o] =>
+    -- reconstruct the log state from raw store contents, as a reader that knows only the layout
+    (match unhex t, unhex d, unhex b, unhex o with
+     | some t, some d, some b, some o =>
+       let disk : Disk := ⟨File.ofList t, File.ofList d, File.ofList b, File.ofList o⟩
+       (match openOn disk none with
+        | .error e => some (w, s!"open{failTxt e}")
+        | .ok (c, _) => some (w, shorten (probeCore c disk (probeIndices c.tree.length))))
+     | _, _, _, _ => some (w, "bad-op"))
   | ["evcheck", _] => some (w, "ok")
   | ["pk", name] =>
     (match (w.get? name).bind (·.core) with
